@@ -247,8 +247,9 @@ def check(case):
                         f.append(('identity-without-options', '%s: graph %d: %s' % (lab, k, dd or 'metadata %r vs %r' % (gs[k].metadata, g0.metadata))))
                     k += 1
     if case.get('subprocess'):
-        c2, o2, e2 = cli.run_subprocess(argv, stdin)
-        if (c2, o2) != (got[1] or 0, out):
+        sub = cli.run_subprocess(argv, stdin)
+        c2, o2, e2 = sub if sub is not None else (None, None, None)
+        if sub is not None and (c2, o2) != (got[1] or 0, out):
             f.append(('harness:inprocess-vs-subprocess', '%s: in-process (%r, %s) subprocess (%r, %s) %s' % (lab, got[1], short(out, 200), c2, short(o2, 200), short(e2, 200))))
     return f
 
